@@ -292,7 +292,7 @@ type inspectOut struct {
 
 func childInspect(env *core.Env, _ []string) int {
 	dir, wp, outp := env.Opt("dir", ""), env.Opt("world", ""), env.Opt("out", "")
-	if err := installHooks(env.Opt("log", ""), -1); err != nil {
+	if err := installHooks(env.Opt("log", ""), env.OptInt("crashat", -1)); err != nil {
 		fmt.Fprintln(os.Stderr, "child-inspect:", err)
 		return 2
 	}
@@ -304,14 +304,17 @@ func childInspect(env *core.Env, _ []string) int {
 	var out inspectOut
 	write := func() int {
 		raw, _ := json.Marshal(&out)
-		if err := os.WriteFile(outp, raw, 0o644); err != nil {
+		if err := os.WriteFile(outp+".tmp", raw, 0o644); err != nil {
+			fmt.Fprintln(os.Stderr, "child-inspect:", err)
+			return 2
+		}
+		if err := os.Rename(outp+".tmp", outp); err != nil {
 			fmt.Fprintln(os.Stderr, "child-inspect:", err)
 			return 2
 		}
 		return 0
 	}
 	logLine(map[string]any{"ev": "Phase", "p": "open"})
-	arm(true)
 	n, err := openNode(dir)
 	if err != nil {
 		out.OpenErr = err.Error()
@@ -319,7 +322,11 @@ func childInspect(env *core.Env, _ []string) int {
 	}
 	logLine(map[string]any{"ev": "Phase", "p": "observe"})
 	out.Obs1 = n.observe(w)
+	if rc := write(); rc != 0 { // the delivery below may stop the process
+		return rc
+	}
 	logLine(map[string]any{"ev": "Phase", "p": "continue"})
+	arm(true)
 	for _, id := range parseOrder(env.Opt("order", "")) {
 		d, err := n.deliver(w, id)
 		if err != nil {
@@ -328,9 +335,9 @@ func childInspect(env *core.Env, _ []string) int {
 		}
 		out.Deliveries = append(out.Deliveries, d)
 	}
+	arm(false)
 	logLine(map[string]any{"ev": "Phase", "p": "final"})
 	out.Obs2 = n.observe(w)
-	arm(false)
 	logLine(map[string]any{"ev": "End", "writes": hk.count})
 	n.close()
 	return write()
